@@ -116,6 +116,7 @@ def main():
     tmp = tempfile.mkdtemp(prefix="verif_c01_")
     direct = []
     sep_cases = []
+    enc_cases = []
     cfg_count = {}
     n = 30 if T == "quick" else 400
     try:
@@ -196,6 +197,24 @@ def main():
                     if body_small is not None and body_small != body:
                         direct.append({"law": "the bytes of a response do not depend on the block size it is streamed in", "config": "buffer_size=%d" % bs,
                                        "dataset": repr(desc)[:1500]})
+                # an inner sequence asked for on its own: the data part of the answer vs the Gallina unpack_enclosed (model/Enclosed.v)
+                if not gz and len(enc_cases) < (120 if T == "quick" else 1500):
+                    import c05 as H5
+                    for vid_, d_ in G.walk_desc(desc):
+                        if d_[0] != "seq":
+                            continue
+                        for j_, c_ in enumerate(d_[2]):
+                            if c_[0] != "seq":
+                                continue
+                            try:
+                                raw_ = Request.blank("/.dods?%s.%s" % (vid_, c_[1])).get_response(BaseHandler(G.build(desc, backend))).body
+                                data_ = raw_.split(b"\nData:\n", 1)[1]
+                            except Exception as e:  # noqa
+                                direct.append({"law": "a request for an inner sequence alone is answered", "variable": vid_ + "." + c_[1],
+                                               "dataset": repr(desc)[:1500], "error": repr(e)[:200]})
+                                continue
+                            want_v = "(VSeq [%s])" % "; ".join("[%s]" % H5.c_val(c_, rows=row_[j_]) for row_ in d_[3])
+                            enc_cases.append("(1%%nat, %s, %s, %s)" % (H5.c_decl(c_), H5.cB(data_), want_v))
                 dds_txt = body.split(b"\nData:\n", 1)[0]
                 if not gz:
                     sep_cases.append("(%s)" % cB(dds_txt))
@@ -240,6 +259,16 @@ def main():
                     found=False)
         bad = []
     r.extra["dds_texts_checked_for_early_separator"] = len(sep_cases)
+    try:
+        bade = coq_eval_mismatches(PID + "_enclosed", "EnclosedCases", "chk_enclosed", enc_cases, "nat * decl * list N * val", shard=60,
+                                   ztype=False)
+    except RuntimeError as e:
+        r.violation({"kind": "correspondence-broken", "error": str(e)[-1500:], "theorem": "unpack_enclosed evaluation"}, found=False)
+        bade = []
+    r.extra["inner_sequences_decoded_by_the_model"] = len(enc_cases)
+    if bade and not direct:
+        r.violation({"kind": "correspondence-broken", "theorem": "response to a request for an inner sequence vs the Gallina unpack_enclosed "
+                     "(C01_enclosed_variable_read_alone)", "case": enc_cases[bade[0]][:1500], "n_mismatches": len(bade)}, found=False)
     if bad:
         r.violation({"kind": "hypothesis-fails", "theorem": "C01_end_to_end (hypothesis no_early dds)",
                      "dds": sep_cases[bad[0]][:1500]}, found=False)
